@@ -620,12 +620,55 @@ Qed.
 Theorem char_unclosed_empty : read_char_literal [] = Err ErrUnclosedChar.
 Proof. reflexivity. Qed.
 
-Lemma after_quote_none bs : forallb (fun b => negb (b =? 39)) bs = true -> after_quote bs = None.
+(* the closing-quote loop walks over plain bytes and over backslash pairs *)
+Lemma cle_plain bs : forall more, forallb (plain_byte 39) bs = true ->
+  char_literal_end (bs ++ more) = char_literal_end more.
 Proof.
-  induction bs as [|b bs IH]; intros H; [reflexivity|].
+  induction bs as [|b bs IH]; intros more H; [reflexivity|].
   cbn [forallb] in H. apply andb_prop in H. destruct H as [Hb Hbs].
-  cbn [after_quote]. replace (b =? 39) with false by lia. apply IH. exact Hbs.
+  cbn [app char_literal_end]. unfold plain_byte in Hb.
+  replace (b =? 39) with false by lia. replace (b =? 92) with false by lia.
+  apply IH. exact Hbs.
 Qed.
+
+Lemma cle_pair x more : char_literal_end (92 :: x :: more) = char_literal_end more.
+Proof. reflexivity. Qed.
+
+Lemma cle_item it more : valid_item 39 it = true ->
+  char_literal_end (spell_item it ++ more) = char_literal_end more.
+Proof.
+  intros Hv. destruct it as [c|e].
+  - apply cle_plain. apply valid_chr_bytes; [right; reflexivity|exact Hv].
+  - cbn [valid_item] in Hv. destruct (escape_shape e Hv) as [x [ds [Hsp [Hds _]]]].
+    cbn [spell_item]. unfold spell_escape. rewrite Hsp. cbn [app]. rewrite cle_pair.
+    apply cle_plain. apply digits_plain; [right; reflexivity|exact Hds].
+Qed.
+
+Lemma cle_items l rest : forallb (valid_item 39) l = true ->
+  char_literal_end (spell_items l ++ 39 :: rest) = Some rest.
+Proof.
+  induction l as [|it l IH]; intros H; [reflexivity|].
+  cbn [forallb] in H. apply andb_prop in H. destruct H as [Hit Hl].
+  rewrite spell_items_cons, <- app_assoc, cle_item by exact Hit. apply IH. exact Hl.
+Qed.
+
+Lemma cle_none_len : forall n bs, (length bs <= n)%nat ->
+  forallb (fun b => negb (b =? 39)) bs = true -> char_literal_end bs = None.
+Proof.
+  induction n as [|n IH]; intros bs Hlen H.
+  - destruct bs; [reflexivity|cbn [length] in Hlen; lia].
+  - destruct bs as [|b bs]; [reflexivity|].
+    cbn [forallb] in H. apply andb_prop in H. destruct H as [Hb Hbs]. cbn [length] in Hlen.
+    cbn [char_literal_end]. replace (b =? 39) with false by lia.
+    destruct (b =? 92).
+    + destruct bs as [|x bs2]; [reflexivity|].
+      cbn [forallb] in Hbs. apply andb_prop in Hbs. destruct Hbs as [_ Hbs2].
+      apply IH; [cbn [length] in Hlen; lia|exact Hbs2].
+    + apply IH; [lia|exact Hbs].
+Qed.
+
+Lemma cle_none bs : forallb (fun b => negb (b =? 39)) bs = true -> char_literal_end bs = None.
+Proof. apply (cle_none_len (length bs)). lia. Qed.
 
 Theorem char_unclosed it tail : valid_item 39 it = true -> item_follow it (peek tail) = true ->
   forallb (fun b => negb (b =? 39)) tail = true ->
@@ -639,17 +682,17 @@ Proof.
     destruct (rfc3629 c) as [|b l] eqn:E; [pose proof (rfc3629_length c) as Hl; rewrite E in Hl; cbn in Hl; lia|].
     pose proof (first_plain_not_backslash 39 _ b l Hp eq_refl) as Hb.
     cbn [app read_char_literal]. rewrite Hb. cbn [app] in Hd. rewrite Hd.
-    rewrite after_quote_none by exact Ht. reflexivity.
+    rewrite cle_none by exact Ht. reflexivity.
   - cbn [valid_item] in Hv. cbn [spell_item]. unfold spell_escape. cbn [app read_char_literal].
     change (92 =? 92) with true. cbn iota.
     rewrite read_escaped_char_spec; [|exact Hv|exact Hfol].
-    rewrite after_quote_none by exact Ht. reflexivity.
+    rewrite cle_none by exact Ht. reflexivity.
 Qed.
 
 (* ---------- constants with more than one element (value implementation-defined, 6.4.4.4p10) ---------- *)
 Lemma read_char_literal_gen it tail : valid_item 39 it = true -> item_follow it (peek tail) = true ->
   read_char_literal (spell_item it ++ tail) =
-    match after_quote tail with Some r => Ok (item_int it, r) | None => Err ErrUnclosedChar end.
+    match char_literal_end tail with Some r => Ok (item_int it, r) | None => Err ErrUnclosedChar end.
 Proof.
   intros Hv Hfol. destruct it as [c|e].
   - pose proof (valid_chr_bytes 39 c (or_intror eq_refl) Hv) as Hp.
@@ -665,29 +708,19 @@ Proof.
     rewrite read_escaped_char_spec; [reflexivity|exact Hv|exact Hfol].
 Qed.
 
-Lemma after_quote_skip bs rest : forallb (fun b => negb (b =? 39)) bs = true -> after_quote (bs ++ 39 :: rest) = Some rest.
-Proof.
-  induction bs as [|b bs IH]; intros H; [reflexivity|].
-  cbn [forallb] in H. apply andb_prop in H. destruct H as [Hb Hbs].
-  cbn [app after_quote]. replace (b =? 39) with false by lia. apply IH. exact Hbs.
-Qed.
-
-(* chibicc's choice for 'ab...': the value of the first element; the token ends at the first
-   single quote behind it - which is the closing quote only if no later element spells one *)
+(* chibicc's choice for 'ab...': the value of the first element; the closing quote is found by
+   stepping over every later element, escaped quotes included (commit 6181ddd) *)
 Theorem char_multichar it more rest : valid_item 39 it = true ->
   item_follow it (first_byte (spell_items more) 39) = true ->
-  forallb (fun b => negb (b =? 39)) (spell_items more) = true ->
+  forallb (valid_item 39) more = true ->
   read_char_literal (spell_item it ++ spell_items more ++ 39 :: rest) = Ok (item_int it, rest).
 Proof.
-  intros Hv Hfol Hq. rewrite read_char_literal_gen; [|exact Hv|rewrite peek_app; exact Hfol].
-  rewrite after_quote_skip by exact Hq. reflexivity.
+  intros Hv Hfol Hm. rewrite read_char_literal_gen; [|exact Hv|rewrite peek_app; exact Hfol].
+  rewrite cle_items by exact Hm. reflexivity.
 Qed.
 
-(* FINDING: with an escaped quote among the later elements the token ends too early: the valid
-   constant 'a\'' is cut behind the backslash-quote pair *)
-Theorem char_multichar_escaped_quote_refuted :
-  exists l rest c r, valid_items 39 l = true /\
-    read_char_literal (spell_items l ++ 39 :: rest) = Ok (c, r) /\ r = 39 :: rest.
-Proof.
-  exists [IChr 97; IEsc (ESimple SQuote)], [59], 97, [39; 59]. repeat split.
-Qed.
+(* the former finding, now a positive instance: 'a\'' followed by ; is one token with value 97 *)
+Example char_multichar_escaped_quote :
+  valid_items 39 [IChr 97; IEsc (ESimple SQuote)] = true /\
+  read_char_literal (spell_items [IChr 97; IEsc (ESimple SQuote)] ++ [39; 59]) = Ok (97, [59]).
+Proof. vm_compute. split; reflexivity. Qed.
